@@ -147,6 +147,51 @@ def gen_api(rng, mode, thorough):
     return {"kind": "api-%s-%d%s" % (mode, bits, "L" if lossless else ""), "lines": [line], "meta": [None]}
 
 
+def gen_legacy(rng):
+    """a call SEQUENCE through the legacy TurboJPEG 1.x/2.x entry points on one compress, one decompress and one transform
+    handle, TJFLAG_BOTTOMUP (and the other cheap flags) switched on and off between calls"""
+    w = rng.choice(WIDTHS) if rng.chance(1, 2) else rng.range(1, 40)
+    h = rng.range(2, 24)
+    subsamp = rng.below(7)
+    qual = rng.choice([50, 75, 90, 95, 96, 100, rng.range(1, 100)])
+    ns = rng.range(5, 10)
+    cls = rng.choice([None, None, (0, 2, 4), (1, 3, 5), (0,), (1,), (6, 1)])
+    bu = rng.below(2)
+    steps = []
+    for i in range(ns):
+        entry = rng.choice(cls) if cls else rng.below(7)
+        if not rng.chance(1, 4):
+            bu = 1 - bu           # on, off, on, ...
+        st = entry | (bu << 4)
+        for bit in (5, 6, 7, 8, 9):
+            if rng.chance(1, 4):
+                st |= 1 << bit
+        st |= rng.below(11) << 10
+        st |= rng.below(4) << 14
+        st |= rng.below(8) << 16
+        st |= rng.below(2) << 19
+        steps.append(st)
+    line = "leg %d %d %d %d %d %d %d %s" % (w, h, subsamp, qual, rng.next() >> 1, rng.below(5), ns, " ".join(map(str, steps)))
+    return {"kind": "api-legacy", "lines": [line], "meta": [None]}
+
+
+def judge_legacy(g, out):
+    toks = out.split()
+    if not toks or toks[0] != "leg" or len(toks) < 2 or "ERRsrc" in out or "ERRyuv" in out:
+        return ("legacy sequence produced no steps: " + out[:80], "api-error:leg")
+    hist = []
+    for t in toks[1:]:
+        key, val = t.split("=", 1)
+        step, entry, flags = key.split(":")
+        a, b = val.split("/", 1)
+        if a != b:
+            return ("legacy %s (step %s, flags 0x%x%s) differs from the tj3 result of a fresh instance for the same picture, row order "
+                    "and options; earlier calls on the handles: %s" % (entry, step[1:], int(flags), " BOTTOMUP" if int(flags) & 2 else " top-down",
+                                                                      " ".join(hist) or "none"), "legacy-history:" + entry)
+        hist.append("%s(0x%x)" % (entry, int(flags)))
+    return None
+
+
 # ------------------------------------------------------------------ oracles on the implementation's output
 def ints(s):
     return [int(x) for x in s.split()]
@@ -285,6 +330,8 @@ def run(ctx):
         groups.append(gen_api(rng, "enc", ctx.thorough()))
     for i in range(ctx.n(800, 8000)):
         groups.append(gen_api(rng, "dec", ctx.thorough()))
+    for i in range(ctx.n(600, 6000)):
+        groups.append(gen_legacy(rng))
     return run_groups(ctx, groups, exes, drv, flavours)
 
 
@@ -326,7 +373,8 @@ def run_groups(ctx, groups, exes, drv, flavours):
         bad_by_oracle = False
         for fl in flavours:
             o = outs[fl][k:k + n]
-            res = judge_kernel(g, o) if g["kind"].startswith("k-") else judge_api(g, o[0])
+            res = (judge_kernel(g, o) if g["kind"].startswith("k-") else
+                   judge_legacy(g, o[0]) if g["kind"] == "api-legacy" else judge_api(g, o[0]))
             if res:
                 bad_by_oracle = True
                 ctx.violation("%s [%s build]" % (res[0], fl), {"group": slim(g), "flavour": fl, "impl": [x[:400] for x in o]}, signature=res[1])
@@ -364,7 +412,7 @@ def run_groups(ctx, groups, exes, drv, flavours):
                        "pitch w*ps+{0,1,5,32}, both row orders, 8/12/16-bit, widths around the SIMD vector sizes, through the real "
                        "(SIMD and C) rgb->ycc, rgb->gray, rgb->rgb, ycc->rgb, gray->rgb, rgb->ext, ycc->gray, rgb->gray (decompressor) and merged h2v1/h2v2 routines; "
                        "API cases: each picture through 10 TJ pixel formats (+GRAY, CMYK) x 4 paddings x 2 row orders and 11 JCS_* x 2 row-pointer "
-                       "arrangements, lossy and lossless, all subsamplings; a case is distinct when its first output line is distinct; "
+                       "arrangements, lossy and lossless, all subsamplings; legacy sequences: 5-10 calls of tjCompress2/tjDecompress2/tjEncodeYUV3/tjDecodeYUV/tjCompressFromYUV/tjDecompressToYUV2/tjTransform on one compress, one decompress and one transform handle with TJFLAG_BOTTOMUP/FASTUPSAMPLE/FASTDCT/ACCURATEDCT/NOREALLOC/PROGRESSIVE switched on and off, each call compared with a fresh tj3 instance; a case is distinct when its first output line is distinct; "
                        "evaluations counts compress/decompress calls and kernel lines")
     ctx.assume += ["correspondence is differential testing of the hand model against the real kernels; it supports the tie, not the theorems",
                    "alpha = maximum sample value is read as _MAXJSAMPLE of the sample type (255/4095/65535), also for lossless precisions below it",
